@@ -17,7 +17,7 @@ OUTSIDE = ['histories longer than 3 calls beyond what the per-step invariant giv
            'the krylov iteration inside solve (root stub contract as in C01); rank>3; N>3']
 ASSUMPTIONS = ['the exact round trip of the transforms on N=3 (C07) is re-proven inside each obligation, not assumed']
 
-PAIRLOOP = ('chi[extrap]', 'chi[curve]', 'spinodal[extrap]', 'second_virial[extrap]', 'solvation[HNC]', 'solvation[PY]')
+PAIRLOOP = ('chi[extrap]', 'chi[curve]', 'spinodal[extrap]', 'second_virial[extrap]', 'second_virial[k0]', 'solvation[HNC]', 'solvation[PY]')
 
 
 def instances(tier):
